@@ -287,6 +287,6 @@ def simplify(trace):
             for nv in (2, v // 2, v - 1):
                 if 2 <= nv < v:
                     p2 = dict(params, **{k: nv})
-                    if spec["cls"] == "MACD" and p2.get("fast_period", 12) >= p2.get("slow_period", 26):
+                    if spec["cls"] == "MACD" and p2.get("fast_period", 12) == p2.get("slow_period", 26):
                         continue
                     yield dict(trace, config=dict(cfg, spec=dict(spec, params=p2)))
